@@ -68,7 +68,7 @@ Geom(g) ==
     [] g = "obl3"   -> [ndim |-> 3, dirs |-> << <<0, 0>>, <<90, 0>>, <<0, 90>>, <<45, 30>> >>]
 Geoms == {"line1", "omni2", "ortho2", "rot2", "skew2", "tri2", "quad2", "xyz3", "hor3", "four3", "vfirst3", "obl3"}
 \* the variogram map ignores the directions: one geometry per space dimension
-VMapGeoms == {"ortho2", "xyz3"}
+VMapGeoms == {"ortho2", "four3"}
 
 \* the 'true' model behind the experimental values: anisotropy ratio, rotation (degrees), nested structures
 Truth(t) ==
@@ -251,7 +251,8 @@ NDir(r) == Len(Geom(r.geom).dirs)
 \* are run for one variable or (constant sill) as they are.
 Slow(r) ==
   \/ r.geom \in {"four3", "obl3"} /\ r.maxiter \notin 0..50 /\ r.entry # "sills"
-  \/ (\E i \in 1..Len(r.types) : r.types[i] = "MATERN") /\ NDir(r) > NDim(r) /\ r.maxiter \notin 0..50 /\ r.entry \notin {"sills", "vmap"}
+  \/ (\E i \in 1..Len(r.types) : r.types[i] = "MATERN") /\ (NDir(r) > NDim(r) \/ NDim(r) = 3 \/ r.entry = "vmap")
+       /\ r.maxiter \notin 0..50 /\ r.entry # "sills"
   \/ r.csill > 0 /\ r.nvar > 1 /\ (Len(r.types) >= 3 \/ NDim(r) = 3) /\ r.maxiter \notin 0..50 /\ r.entry \in {"fit", "fitcov"}
 Affordable(r) == Slow(r) => (Rich /\ (r.nvar = 1 \/ r.csill > 0))
 
@@ -260,6 +261,8 @@ Valid(r) ==
   /\ r.recipe \in MultiOnly => r.nvar >= 2
   /\ ConsOk(r.cons, r.types, NDim(r), r.nvar)
   /\ r.entry = "vmap" => r.geom \in VMapGeoms
+  \* a 3-D map fitted with the default 1000 iterations takes ten minutes of CPU: maps in 3-D come with few iterations
+  /\ r.entry = "vmap" /\ NDim(r) = 3 => r.maxiter \in 0..50
   /\ r.entry = "sills" => \A i \in 1..Len(ConsSet(r.cons)) : ConsSet(r.cons)[i].elem = "SILL"
   /\ r.empty = "dir" => (NDir(r) >= 2 \/ r.entry = "vmap")
   /\ r.csill > 0 => \A i \in 1..Len(ConsSet(r.cons)) : ConsSet(r.cons)[i].elem # "SILL"
